@@ -5,6 +5,7 @@ package interp
 // interpreter values. The library itself is trusted (DESIGN.md section 5).
 
 import (
+	"strings"
 	"go/types"
 	"sort"
 
@@ -62,6 +63,71 @@ func hostMapToValue(x map[string]any) *symMap {
 
 func init() {
 	// func Unmarshal(data []byte, v interface{}) error
+	// func (dec *Decoder) Decode(v any) error: the stream decoder reads one top-level value from its reader and leaves
+	// the rest; the reader is drained through its own Read method, the value is decoded by the real library
+	intrinsics["(*github.com/titanous/json5.Decoder).Decode"] = func(fr *frame, args []value) value {
+		i := fr.i
+		dp, ok := args[0].(*value)
+		if !ok || dp == nil {
+			panic(runtimeError("invalid memory address or nil pointer dereference"))
+		}
+		dec := (*dp).(structure)
+		var data []value
+		found := false
+		for _, f := range dec {
+			r, isIface := f.(iface)
+			if !isIface || r.t == nil {
+				continue
+			}
+			found = true
+			for {
+				buf := make([]value, 512)
+				for k := range buf {
+					buf[k] = uint8(0)
+				}
+				res, ok := i.callMethodWithArgs(fr, r.t, r.v, "Read", []value{buf})
+				if !ok {
+					i.path.abort("json5.Decoder: reader of type %s has no Read method", r.t)
+				}
+				tup := res.(tuple)
+				n := int(asInt64(i.concValue(tup[0], "bytes read")))
+				data = append(data, buf[:n]...)
+				if e := tup[1].(iface); e.t != nil || n == 0 {
+					break
+				}
+			}
+			break
+		}
+		if !found {
+			i.path.abort("json5.Decoder: no reader field found")
+		}
+		text := i.concValue(mkStr(data), "json5 input").(string)
+		dst := args[1].(iface)
+		ptr, ok := dst.v.(*value)
+		if !ok || ptr == nil {
+			i.path.abort("json5.Decoder.Decode into %v is not modelled", dst.t)
+		}
+		i.envst.log = append(i.envst.log, "json5.Decode:"+text)
+		hostDec := json5.NewDecoder(strings.NewReader(text))
+		switch dst.t.Underlying().(*types.Pointer).Elem().Underlying().(type) {
+		case *types.Map:
+			var out map[string]any
+			if err := hostDec.Decode(&out); err != nil {
+				return i.newError(fr, err.Error())
+			}
+			*ptr = hostMapToValue(out)
+			return iface{}
+		case *types.Interface:
+			var out any
+			if err := hostDec.Decode(&out); err != nil {
+				return i.newError(fr, err.Error())
+			}
+			*ptr = hostToValue(out)
+			return iface{}
+		}
+		i.path.abort("json5.Decoder.Decode into %v is not modelled", dst.t)
+		return nil
+	}
 	intrinsics["github.com/titanous/json5.Unmarshal"] = func(fr *frame, args []value) value {
 		i := fr.i
 		data := i.concValue(mkStr(args[0].([]value)), "json5 input").(string)
